@@ -89,6 +89,76 @@ def cook_publication_order(spec):
 
 
 # ---------------------------------------------------------------------------
+# C11 / C19: a TemplateError passing through BaseTemplate._cook keeps its anchoring
+# (token text, position and the source the position refers to); only the file name is filled in
+# ---------------------------------------------------------------------------
+ANCHOR_DEMO = r'''
+import json, sys
+sys.path.insert(0, sys.argv[1] + '/src')
+from chameleon.zpt.template import PageTemplate
+from chameleon.exc import TemplateError
+out = {}
+for src in ('<a>\r\n<b tal:content="1 +">x</b>\r\n</a>', '<a>\r<b>${2 *}</b></a>', '<p tal:define="x ???">\r\n</p>'):
+    try:
+        PageTemplate(src, strict=True)
+    except TemplateError as e:
+        t = e.token
+        s = t.source
+        if s is None or s[t.pos:t.pos + len(t)] != str.__str__(t):
+            out = {'template': src, 'token': str.__str__(t), 'pos': t.pos,
+                   'source_slice': None if s is None else s[t.pos:t.pos + len(t)]}
+            break
+print(json.dumps(out))
+'''
+
+
+def cook_error_frame(spec):
+    import json
+    import os
+    import subprocess
+    from .replay import PY, REPO
+    t0 = time.time()
+    fn = find(parse('template.py'), 'BaseTemplate._cook')
+    writes = []
+    for h in [x for n in ast.walk(fn) if isinstance(n, ast.Try) for x in n.handlers]:
+        nm = h.name
+        for n in ast.walk(ast.Module(body=h.body, type_ignores=[])):
+            tg = []
+            if isinstance(n, ast.Assign):
+                tg = n.targets
+            elif isinstance(n, (ast.AugAssign, ast.AnnAssign)):
+                tg = [n.target]
+            for t in tg:
+                for x in ast.walk(t):
+                    if isinstance(x, ast.Attribute) and isinstance(x.ctx, ast.Store) and nm and \
+                            nm in [y.id for y in ast.walk(x.value) if isinstance(y, ast.Name)]:
+                        writes.append((ast.unparse(x), n.lineno))
+            if isinstance(n, ast.Call) and isinstance(n.func, ast.Name) and n.func.id == 'setattr':
+                writes.append((ast.unparse(n), n.lineno))
+    bad = [w for w in writes if not w[0].endswith('.token.filename')]
+    o = ob('_cook.error_frame', not bad,
+           'a TemplateError passing through BaseTemplate._cook is changed in its token.filename only: '
+           'token text, offset and the source the offset refers to stay as the compiler set them',
+           {'writes_in_handlers': writes})
+    if bad:
+        env = dict(os.environ)
+        env.pop('PYTHONPATH', None)
+        try:
+            p = subprocess.run([PY, '-c', ANCHOR_DEMO, REPO], capture_output=True, text=True, timeout=120, env=env)
+            line = [ln for ln in p.stdout.strip().split('\n') if ln.startswith('{')]
+            d = json.loads(line[-1]) if line else None
+        except Exception:
+            d = None
+        if d:
+            o['confirmed'] = True
+            o['witness'] = {'inputs': {'template': d['template'], 'strict': True},
+                            'detail': 'TemplateError token %r at offset %d, but source[offset:offset+len] is %r'
+                                      % (d['token'], d['pos'], d['source_slice'])}
+    return {'unit': 'frames.cook_error_frame', 'function': 'template.py::BaseTemplate._cook',
+            'obligations': [o], 'wall': time.time() - t0}
+
+
+# ---------------------------------------------------------------------------
 # C16: a re-cooked template keeps nothing of the previous version (macros are the `_render_*`
 # attributes cook() publishes on the instance)
 # ---------------------------------------------------------------------------
